@@ -1,3 +1,18 @@
--- This module serves as the root of the `Beetswap` library.
--- Import modules here that should be built as part of the library.
-import Beetswap.Basic
+-- Root of the `Beetswap` library: every model, specification and property module.
+import Beetswap.Generated
+import Beetswap.Model.KMap
+import Beetswap.Model.Varint
+import Beetswap.Model.Proto
+import Beetswap.Model.Frame
+import Beetswap.Model.Text
+import Beetswap.Model.Cid
+import Beetswap.Model.Incoming
+import Beetswap.Model.Wantlist
+import Beetswap.Model.Client
+import Beetswap.Model.Server
+import Beetswap.Model.Node
+import Beetswap.Spec.Wire
+import Beetswap.Spec.Limit
+import Beetswap.Props.C09
+import Beetswap.Props.C10
+import Beetswap.Props.C11
